@@ -5,7 +5,8 @@ package sonic
 // Contracts for ByteBuffer (property C09; used by C07, C19, C20, C06, C16, C17).
 
 //@ pred bbInv(b *ByteBuffer) =
-//@   0 <= b.si && b.si <= b.ri && b.ri <= b.wi && b.wi == len(b.data) && len(b.data) <= cap(b.data)
+//@   0 <= b.si && b.si <= b.ri && b.ri <= b.wi && b.wi == len(b.data) && len(b.data) <= cap(b.data) &&
+//@   heapslice(b.data)
 
 //@ func (*ByteBuffer).Reserved
 //@   requires bbInv(b)
@@ -200,3 +201,56 @@ package sonic
 //@   ensures [to] n > old(b.wi - b.ri) ==> b.wi == old(b.wi) && shrunkBy == 0
 //@   ensures [to] n < 0 && n > -(1<<62) ==> b.wi == b.ri
 //@   modifies b.wi, b.data
+
+// --- environment contracts (assumptions on user code, listed in the evidence) ---
+
+//@ func iface:io.Reader.Read
+//@   trusted
+//@   ensures 0 <= n && n <= len(p)
+//@   modifies mem(p)
+
+//@ func iface:io.Writer.Write
+//@   trusted
+//@   ensures 0 <= n && n <= len(p)
+//@   ensures err == nil ==> n == len(p)
+//@   modifies nothing
+
+//@ func fnparam:(*ByteBuffer).Claim.fn
+//@   trusted
+//@   modifies mem(b)
+
+//@ func (*ByteBuffer).ReadByte
+//@   prop C09
+//@   requires bbInv(b)
+//@   ensures [inv] bbInv(b) && b.si == old(b.si)
+//@   ensures [ok] result1 == nil && old(b.ri - b.si) > 0 ==> result0 == old(b.data[b.si]) && b.ri == old(b.ri) - 1 && b.wi == old(b.wi) - 1
+//@   ensures [err] result1 != nil ==> b.ri == old(b.ri) && b.wi == old(b.wi)
+//@   ensures [saved] forall j :: 0 <= j && j < b.si ==> b.data[j] == old(b.data[j])
+//@   ensures [rest] result1 == nil && old(b.ri - b.si) > 0 ==> forall j :: b.si <= j && j < b.wi ==> b.data[j] == old(b.data[j+1])
+
+//@ func (*ByteBuffer).ReadFrom
+//@   prop C09
+//@   requires bbInv(b) && r != nil
+//@   ensures [inv] bbInv(b) && b.si == old(b.si) && b.ri == old(b.ri)
+//@   ensures [grow] result1 == nil ==> b.wi == old(b.wi) + int(result0) && 0 <= result0 && int(result0) <= old(cap(b.data) - b.wi)
+//@   ensures [err] result1 != nil ==> b.wi == old(b.wi)
+//@   ensures [kept] forall j :: 0 <= j && j < old(b.wi) ==> b.data[j] == old(b.data[j])
+
+//@ func (*ByteBuffer).Claim
+//@   prop C09
+//@   requires bbInv(b) && fn != nil
+//@   ensures [inv] bbInv(b) && b.si == old(b.si) && b.ri == old(b.ri) && b.wi >= old(b.wi) && b.wi <= old(cap(b.data))
+//@   ensures [kept] forall j :: 0 <= j && j < old(b.wi) ==> b.data[j] == old(b.data[j])
+
+//@ func (*ByteBuffer).WriteTo
+//@   prop C09
+//@   requires bbInv(b) && w != nil
+//@   loop 1 invariant bbInv(b) && 0 <= writtenBytes && writtenBytes <= b.ri - b.si
+//@   loop 1 invariant b.si == old(b.si) && b.ri == old(b.ri) && b.wi == old(b.wi)
+//@   loop 1 invariant ptr(b.data) == old(ptr(b.data)) && cap(b.data) == old(cap(b.data))
+//@   loop 1 invariant forall j :: 0 <= j && j < b.wi ==> b.data[j] == old(b.data[j])
+//@   ensures [inv] bbInv(b) && b.si == old(b.si)
+//@   ensures [consumed] 0 <= result0 && int(result0) <= old(b.ri - b.si) && b.ri == old(b.ri) - int(result0) && b.wi == old(b.wi) - int(result0)
+//@   ensures [all] result1 == nil ==> int(result0) == old(b.ri - b.si)
+//@   ensures [saved] forall j :: 0 <= j && j < b.si ==> b.data[j] == old(b.data[j])
+//@   ensures [rest] forall j :: b.si <= j && j < b.wi ==> b.data[j] == old(b.data[j+int(result0)])
